@@ -174,6 +174,7 @@ func check(prop, tier, only, repoDir, verifDir string, workers, par, seed int, d
 	paths, instrs := 0, 0
 	knownSeen := map[string]bool{}
 	reachOK := map[string]bool{}
+	probeBudget := 12
 	for _, hr := range results {
 		paths += hr.Runs
 		instrs += hr.Instrs
@@ -274,6 +275,42 @@ func check(prop, tier, only, repoDir, verifDir string, workers, par, seed int, d
 					fmt.Println(msg)
 				}
 			default:
+				hit := false
+				if len(ob.Vars) > 0 && probeBudget > 0 {
+					// last resort for an undecided obligation: native evaluation at pseudo-random
+					// points (bug hunting only: a hit is a replayed violation, a miss proves nothing)
+					ob.ProbeModels = append(ob.ProbeModels, randomModels(ob.Vars, 120, seed+len(ob.Label))...)
+					probeBudget--
+				}
+				if os.Getenv("GOSMT_DEBUG") != "" {
+					fmt.Printf("DEBUG probe models for %s: %d\n", ob.Label, len(ob.ProbeModels))
+				}
+				for _, pm := range ob.ProbeModels {
+					if os.Getenv("GOSMT_DEBUG") != "" {
+						fmt.Printf("DEBUG   model %v\n", pm)
+					}
+					ob.Model = pm
+					ro := rp.Replay(hr.Spec, ob, ld.Specs, tier, knownIDs, replayDir)
+					replays++
+					if ro.Reproduced {
+						hit = true
+						ob.Replay = &ro
+						break
+					}
+				}
+				if hit && !reproduced[ob.Label] {
+					reproduced[ob.Label] = true
+					nViol++
+					sum.Verdict = "VIOLATED(solver undecided; found by native evaluation at a solver-chosen point of the path condition)"
+					line := fmt.Sprintf("VIOLATION property=%s replay=%s", prop, ob.Replay.File)
+					violations = append(violations, line)
+					fmt.Printf("%s\n  harness=%s label=%s site=%s (solver undecided; native evaluation at a point satisfying the assumptions)\n", line, hr.Spec.Name, ob.Label, ob.Site)
+					break
+				}
+				if hit {
+					sum.Verdict = "violated(same label already reproduced)"
+					break
+				}
 				if ob.Hunt {
 					nHunt++
 					sum.Verdict = "hunt: no counterexample found (proof by sibling harness)"
@@ -452,4 +489,53 @@ func writeBrokenEvidence(verifDir, prop, tier string, seed int, why string, wall
 	os.MkdirAll(filepath.Join(verifDir, "evidence"), 0755)
 	b, _ := json.MarshalIndent(ev, "", " ")
 	os.WriteFile(filepath.Join(verifDir, "evidence", prop+".json"), b, 0644)
+}
+
+// randomModels: pseudo-random assignments to the harness symbols of an obligation
+func randomModels(vars map[string]Sort, n int, seed int) []Model {
+	var names []string
+	for v := range vars {
+		if strings.HasPrefix(v, "sym:") {
+			names = append(names, v)
+		}
+	}
+	sort.Strings(names)
+	r := uint64(seed)*6364136223846793005 + 1442695040888963407
+	next := func() uint64 { r = r*6364136223846793005 + 1442695040888963407; return r >> 33 }
+	mags := []float64{0, 0.001, 0.01, 0.1, 0.25, 0.5, 0.9, 1, 1.5, 2, 3, 5, 10, 30, 100, 400, 1000, 86400}
+	var out []Model
+	for k := 0; k < n; k++ {
+		m := Model{}
+		for _, v := range names {
+			switch vars[v] {
+			case SReal, SFP64, SFP32:
+				x := mags[next()%uint64(len(mags))] * (0.5 + float64(next()%1000)/1000.0)
+				if next()%8 == 0 {
+					x = -x
+				}
+				if next()%6 == 0 {
+					x = mags[next()%uint64(len(mags))]
+				}
+				if x < 0 {
+					m[v] = fmt.Sprintf("(- %v)", strconv.FormatFloat(-x, 'f', -1, 64))
+				} else {
+					m[v] = strconv.FormatFloat(x, 'f', -1, 64)
+					if !strings.Contains(m[v], ".") {
+						m[v] += ".0"
+					}
+				}
+			case SBool:
+				m[v] = []string{"true", "false"}[next()%2]
+			default:
+				x := int64(next() % 7)
+				if vars[v].IsBV() {
+					m[v] = fmt.Sprintf("(_ bv%d %d)", x, vars[v].Bits())
+				} else {
+					m[v] = fmt.Sprint(x)
+				}
+			}
+		}
+		out = append(out, m)
+	}
+	return out
 }
